@@ -9,6 +9,7 @@ import (
 )
 
 var harnesses = map[string]func(){
+	"webh.H_FiberConc": webh.H_FiberConc,
 	"webh.H_Probe": webh.H_Probe,
 	"webh.H_Fiber": webh.H_Fiber,
 }
